@@ -14,7 +14,7 @@ from vlib import core
 
 PID = "C13"
 SCENARIOS = ["cctx-l3", "cctx-l1-then-l7", "cctx-l19", "history-then-resize", "dict-copy", "dict-ref", "cstream-l3", "cstream-l13",
-             "mt-1", "mt-2", "mt-2-ldm", "dstream-fresh", "dstream-after-small", "dstream-retry-small-first", "ddict"]
+             "mt-1", "mt-2", "mt-2-ldm", "dstream-fresh", "dstream-after-small", "dstream-retry-small-first", "ddict", "ddict-set-grows", "mt-more-workers"]
 
 
 def run(tier):
